@@ -52,6 +52,11 @@ class Mon(object):
 
 
 def unit(rng, dim):
+    # arbitrary separation directions: half of the time the separation also
+    # has components outside the kernel's own dimension (r is the full
+    # distance; the gradient is dW/dr times the full unit vector)
+    if dim < 3 and rng.random() < 0.5:
+        dim = 3
     v = np.zeros(3)
     v[:dim] = rng.normal(size=dim)
     n = np.linalg.norm(v)
